@@ -8,47 +8,48 @@ open RaftWal.Crash
 
 /-! ### deletions: a failing one is ignored -/
 
-/-- after a run of deletions only files with one of the identifiers may be missing; nothing is reported -/
-theorem runActs_deletes (wf : WriteFail) (ids : List Nat) (d : Disk) (k : Option Nat) :
-    ∃ (g : Nat → Bool) (k' : Option Nat), (∀ j, j ∉ ids → g j = true) ∧
-      runActs d wf (ids.map .delete) k = ({ d with files := d.files.filter (fun f => g f.id) }, none, k') := by
-  induction ids generalizing d k with
+/-- after a run of deletions (any number of which may fail) only files with one of the identifiers may be missing;
+    nothing is reported -/
+theorem runActs_deletes (ids : List Nat) (d : Disk) (pl : Plan) :
+    ∃ (g : Nat → Bool) (pl' : Plan), (∀ j, j ∉ ids → g j = true) ∧
+      runActs d (ids.map .delete) pl = ({ d with files := d.files.filter (fun f => g f.id) }, none, pl') := by
+  induction ids generalizing d pl with
   | nil =>
-    refine ⟨fun _ => true, k, fun _ _ => rfl, ?_⟩
+    refine ⟨fun _ => true, pl, fun _ _ => rfl, ?_⟩
     rw [List.map_nil, runActs_nil]
     have : d.files.filter (fun _ => true) = d.files := List.filter_eq_self.2 (fun _ _ => rfl)
-    show (d, none, k) = ({ d with files := d.files.filter (fun _ => true) }, none, k)
+    show (d, none, pl) = ({ d with files := d.files.filter (fun _ => true) }, none, pl)
     rw [this]
   | cons a l ih =>
-    have step : ∀ k1, ∃ (g : Nat → Bool) (k' : Option Nat), (∀ j, j ∉ a :: l → g j = true) ∧
-        runActs (d.apply (.delete a)) wf (l.map .delete) k1 =
-          ({ d with files := d.files.filter (fun f => g f.id) }, none, k') := by
-      intro k1
-      obtain ⟨g, k', hg, hr⟩ := ih (d.apply (.delete a)) k1
-      refine ⟨fun j => decide (j ≠ a) && g j, k', ?_, ?_⟩
+    have step : ∀ pl1, ∃ (g : Nat → Bool) (pl' : Plan), (∀ j, j ∉ a :: l → g j = true) ∧
+        runActs (d.apply (.delete a)) (l.map .delete) pl1 =
+          ({ d with files := d.files.filter (fun f => g f.id) }, none, pl') := by
+      intro pl1
+      obtain ⟨g, pl', hg, hr⟩ := ih (d.apply (.delete a)) pl1
+      refine ⟨fun j => decide (j ≠ a) && g j, pl', ?_, ?_⟩
       · intro j hj
         simp only [List.mem_cons, not_or] at hj
         simp [hj.1, hg j hj.2]
       · rw [hr]
         simp only [Disk.apply, List.filter_filter, Bool.and_comm]
-    rcases k with _ | _ | n
-    · exact step none
-    · obtain ⟨g, k', hg, hr⟩ := ih d none
-      exact ⟨g, k', fun j hj => hg j (fun h => hj (List.mem_cons_of_mem _ h)), hr⟩
-    · exact step (some n)
+    rcases pl with _ | ⟨_ | wf, pl⟩
+    · exact step []
+    · exact step pl
+    · obtain ⟨g, pl', hg, hr⟩ := ih d pl
+      exact ⟨g, pl', fun j hj => hg j (fun h => hj (List.mem_cons_of_mem _ h)), hr⟩
 
 /-- commit, then deletions: the commit fails and nothing changed, or the call goes through -/
-theorem run_keep (wf : WriteFail) (d : Disk) (m : Meta) (ids : List Nat) (k : Option Nat) :
-    runActs d wf (.commit m :: ids.map .delete) k = (d, some (.commit m), none) ∨
-    ∃ (g : Nat → Bool) (k' : Option Nat), (∀ j, j ∉ ids → g j = true) ∧
-      runActs d wf (.commit m :: ids.map .delete) k =
-        ({ md := m, files := d.files.filter (fun f => g f.id) }, none, k') := by
-  rcases k with _ | _ | n
-  · obtain ⟨g, k', hg, hr⟩ := runActs_deletes wf ids (applyF d (.commit m)) none
-    exact Or.inr ⟨g, k', hg, hr⟩
-  · exact Or.inl rfl
-  · obtain ⟨g, k', hg, hr⟩ := runActs_deletes wf ids (applyF d (.commit m)) (some n)
-    exact Or.inr ⟨g, k', hg, hr⟩
+theorem run_keep (d : Disk) (m : Meta) (ids : List Nat) (pl : Plan) :
+    (∃ pl', runActs d (.commit m :: ids.map .delete) pl = (d, some (.commit m), pl')) ∨
+    ∃ (g : Nat → Bool) (pl' : Plan), (∀ j, j ∉ ids → g j = true) ∧
+      runActs d (.commit m :: ids.map .delete) pl =
+        ({ md := m, files := d.files.filter (fun f => g f.id) }, none, pl') := by
+  rcases pl with _ | ⟨_ | wf, pl⟩
+  · obtain ⟨g, pl', hg, hr⟩ := runActs_deletes ids (applyF d (.commit m)) []
+    exact Or.inr ⟨g, pl', hg, hr⟩
+  · obtain ⟨g, pl', hg, hr⟩ := runActs_deletes ids (applyF d (.commit m)) pl
+    exact Or.inr ⟨g, pl', hg, hr⟩
+  · exact Or.inl ⟨pl, rfl⟩
 
 theorem apply_create_fresh (d : Disk) (m : Meta) (id b : Nat) (h : d.file? id = none) :
     ({ d with md := m } : Disk).apply (.create id b) = { md := m, files := d.files ++ [File.fresh id b] } := by
@@ -57,25 +58,28 @@ theorem apply_create_fresh (d : Disk) (m : Meta) (id b : Nat) (h : d.file? id = 
 
 /-- commit, create, then deletions: the commit fails and nothing changed; the create fails after the commit; or the
     call goes through -/
-theorem run_all (wf : WriteFail) (d : Disk) (m : Meta) (id b : Nat) (ids : List Nat) (k : Option Nat)
+theorem run_all (d : Disk) (m : Meta) (id b : Nat) (ids : List Nat) (pl : Plan)
     (hfresh : d.file? id = none) :
-    runActs d wf (.commit m :: .create id b :: ids.map .delete) k = (d, some (.commit m), none) ∨
-    runActs d wf (.commit m :: .create id b :: ids.map .delete) k = ({ d with md := m }, some (.create id b), none) ∨
-    ∃ (g : Nat → Bool) (k' : Option Nat), (∀ j, j ∉ ids → g j = true) ∧
-      runActs d wf (.commit m :: .create id b :: ids.map .delete) k =
-        ({ md := m, files := (d.files ++ [File.fresh id b]).filter (fun f => g f.id) }, none, k') := by
-  have step : ∀ k1, ∃ (g : Nat → Bool) (k' : Option Nat), (∀ j, j ∉ ids → g j = true) ∧
-      runActs ((applyF d (.commit m)).apply (.create id b)) wf (ids.map .delete) k1 =
-        ({ md := m, files := (d.files ++ [File.fresh id b]).filter (fun f => g f.id) }, none, k') := by
-    intro k1
-    obtain ⟨g, k', hg, hr⟩ := runActs_deletes wf ids ((applyF d (.commit m)).apply (.create id b)) k1
-    refine ⟨g, k', hg, ?_⟩
+    (∃ pl', runActs d (.commit m :: .create id b :: ids.map .delete) pl = (d, some (.commit m), pl')) ∨
+    (∃ pl', runActs d (.commit m :: .create id b :: ids.map .delete) pl =
+      ({ d with md := m }, some (.create id b), pl')) ∨
+    ∃ (g : Nat → Bool) (pl' : Plan), (∀ j, j ∉ ids → g j = true) ∧
+      runActs d (.commit m :: .create id b :: ids.map .delete) pl =
+        ({ md := m, files := (d.files ++ [File.fresh id b]).filter (fun f => g f.id) }, none, pl') := by
+  have step : ∀ pl1, ∃ (g : Nat → Bool) (pl' : Plan), (∀ j, j ∉ ids → g j = true) ∧
+      runActs ((applyF d (.commit m)).apply (.create id b)) (ids.map .delete) pl1 =
+        ({ md := m, files := (d.files ++ [File.fresh id b]).filter (fun f => g f.id) }, none, pl') := by
+    intro pl1
+    obtain ⟨g, pl', hg, hr⟩ := runActs_deletes ids ((applyF d (.commit m)).apply (.create id b)) pl1
+    refine ⟨g, pl', hg, ?_⟩
     rw [hr, applyF_commit, apply_create_fresh d m id b hfresh]
-  rcases k with _ | _ | _ | n
-  · exact Or.inr (Or.inr (step none))
-  · exact Or.inl rfl
-  · exact Or.inr (Or.inl rfl)
-  · exact Or.inr (Or.inr (step (some n)))
+  rcases pl with _ | ⟨_ | wf, pl⟩
+  · exact Or.inr (Or.inr (step []))
+  · rcases pl with _ | ⟨_ | wf, pl⟩
+    · exact Or.inr (Or.inr (step []))
+    · exact Or.inr (Or.inr (step pl))
+    · exact Or.inr (Or.inl ⟨pl, rfl⟩)
+  · exact Or.inl ⟨pl, rfl⟩
 
 /-! ### the actions of a head truncation -/
 
@@ -111,13 +115,13 @@ theorem delHead_acts_all (v : Disk) (n : Nat) (hk : v.md.segs.dropWhile (goneB (
 
 /-! ### `runOp` for a head truncation -/
 
-theorem runOp_delHead_frozen (p : Proc) (n : Nat) (k : Option Nat) (wf : WriteFail) (h : p.frozen.isSome = true) :
-    runOp p (.delHead n) k wf = (p, false) := by
+theorem runOp_delHead_frozen (p : Proc) (n : Nat) (pl : Plan) (h : p.frozen.isSome = true) :
+    runOp p (.delHead n) pl = (p, false) := by
   simp only [runOp, h, ↓reduceIte]
 
-theorem runOp_delHead_of {d : Disk} {n : Nat} {k : Option Nat} {wf : WriteFail} {d1 : Disk} {f : Option Act}
-    {k1 : Option Nat} (hr : runActs d wf ((delHeadProg (vdisk d) n).filter (· != .ack)) k = (d1, f, k1)) :
-    runOp { disk := d, frozen := none } (.delHead n) k wf =
+theorem runOp_delHead_of {d : Disk} {n : Nat} {pl : Plan} {d1 : Disk} {f : Option Act}
+    {pl1 : Plan} (hr : runActs d ((delHeadProg (vdisk d) n).filter (· != .ack)) pl = (d1, f, pl1)) :
+    runOp { disk := d, frozen := none } (.delHead n) pl =
       match f with
       | some a => if isCreate a then ({ disk := d1, frozen := some d.md.segs }, false) else ({ disk := d1 }, false)
       | none => ({ disk := d1 }, true) := by
